@@ -275,6 +275,14 @@ func (a *AckWrap) Expire(now time.Time) {
 	}
 }
 
+// Deadline returns the deadline the broker registered last for (session, packet id).
+func (a *AckWrap) Deadline(session string, id uint16) (time.Time, bool) {
+	a.mu.Lock()
+	defer a.mu.Unlock()
+	d, ok := a.deadlines[fmt.Sprintf("%s/%d", session, id)]
+	return d, ok
+}
+
 // Sweep runs a harness-chosen expiry sweep on the real queue.
 func (a *AckWrap) Sweep(now time.Time) { a.real.Expire(now) }
 
